@@ -35,8 +35,11 @@ func cloneNode(n *elvcore.Node) *elvcore.Node {
 // staticProgram runs one Core program with a defective copy of chunk k inserted before chunk k,
 // followed by an observer chunk reading every global variable.
 func staticProgram(g *elvcore.Gen, chunks []*elvcore.Node) ([]elvcore.Event, error) {
-	ev := elv.New()
-	evs := []elvcore.Event{elvcore.ResetEvent()}
+	ev, err := elvcore.NewEvaler(g.Mods)
+	if err != nil {
+		return nil, err
+	}
+	evs := []elvcore.Event{elvcore.ResetEvent(g.Mods...)}
 	k := g.R.Intn(len(chunks))
 	for i, ch := range chunks {
 		if i == k {
@@ -53,7 +56,7 @@ func staticProgram(g *elvcore.Gen, chunks []*elvcore.Node) ([]elvcore.Event, err
 			}
 			src := elvcore.Render(bad)
 			namesBefore := globalNames(ev)
-			e := elvcore.Event{Ev: "static", Ast: elvcore.Chunk(), Out: []any{}, Exc: elvcore.J{"c": "ok"}, Src: src, Kinds: []string{kind}}
+			e := elvcore.Event{Ev: "static", Ast: elvcore.Chunk(), Out: []any{}, Byt: []int{}, Exc: elvcore.J{"c": "ok"}, Src: src, Kinds: []string{kind}, Mods: [][2]any{}}
 			e.Check = checkClass(ev, src)
 			o := elv.RunCtx(ev, src, nil, 30*time.Second)
 			if o.Timeout || o.Panic != "" {
